@@ -142,7 +142,10 @@ func depthScript() string {
 	sb.WriteString(depthHelpers)
 	sb.WriteString("$server->onError(function ($request, $response, $error) { $response->status(500)->write('error: ' . $error); });\n")
 	for _, k := range depthKinds() {
-		fmt.Fprintf(&sb, "$server->get('/d/%s', function ($req, $res) {\n  $x = $req->input(\"x\"); $d = (int)$req->input(\"d\"); $g = $req->query()[\"g\"];\n  $n = %s;\n  $res->header(\"X-Own\", verif_str($x));\n  $res->write(\"%s|\" . $x . \"|\" . $d . \"|\" . $n);\n});\n", k.Name, k.Expr, k.Name)
+		body := fmt.Sprintf("function ($req, $res) {\n  $x = $req->input(\"x\"); $d = (int)$req->input(\"d\"); $g = $req->query()[\"g\"];\n  $n = %s;\n  $res->header(\"X-Own\", verif_str($x));\n  $res->write(\"%s|\" . $x . \"|\" . $d . \"|\" . $n);\n}", k.Expr, k.Name)
+		fmt.Fprintf(&sb, "$server->get('/d/%s', %s);\n", k.Name, body)
+		// the same handler behind the hot-reload route (HotHandler: a TempVM per request over the same VM)
+		fmt.Fprintf(&sb, "verif_hot('/h/%s', %s);\n", k.Name, body)
 	}
 	sb.WriteString("$server->get('/zz', function ($req, $res) { $res->write('z'); });\nverif_expose($server);\n")
 	return sb.String()
@@ -154,6 +157,8 @@ type flightReq struct {
 	K string `json:"k"` // kind (route)
 	D int    `json:"d"` // frames below the handler
 	X string `json:"x"` // the request's own parameter
+	// Hot: served through HotHandler (route /h/<kind>) instead of the server's Handler (route /d/<kind>)
+	Hot bool `json:"hot,omitempty"`
 }
 
 // flightCase: requests to the depth routes under a forced gate-level schedule (each request has
@@ -168,6 +173,9 @@ type flightCase struct {
 
 func flightWire(r flightReq, gid int) wire {
 	u := fmt.Sprintf("/d/%s?x=%s&d=%d", r.K, r.X, r.D)
+	if r.Hot {
+		u = "/h" + u[2:]
+	}
 	if gid >= 0 {
 		u += "&g=" + strconv.Itoa(gid)
 	}
@@ -183,8 +191,10 @@ func mkReq(k depthKind, frames int, x string) flightReq {
 	if d < 1 {
 		d = 1
 	}
-	return flightReq{k.Name, d, x}
+	return flightReq{K: k.Name, D: d, X: x}
 }
+
+func (r flightReq) hot() flightReq { r.Hot = true; return r }
 
 func perm(r *vh.Rand, n int) []int {
 	p := make([]int, n)
@@ -231,6 +241,21 @@ func playFlight(srv *server, reqs []flightReq, turns []int) ([]resp, []int, erro
 	return srv.runTurns(ids, wires, turns)
 }
 
+// counterAtRest: what a process-wide call counter of the VM reads when no request is in flight
+// (EnterCall returns the count including the call itself); ok=false if the VM has no such counter
+func (s *server) counterAtRest() (int, bool) {
+	v, ok := any(s.env.VM).(interface {
+		EnterCall() int
+		LeaveCall()
+	})
+	if !ok {
+		return 0, false
+	}
+	n := v.EnterCall() - 1
+	v.LeaveCall()
+	return n, true
+}
+
 type flightFailure struct {
 	sig, what string
 }
@@ -239,7 +264,25 @@ type flightFailure struct {
 // of the tree is above it: taken from the regenerated facts, see flightLimits)
 var soloSafeDepth = 400
 
-func judgeFlight(solo *server, reqs []flightReq, out []resp, played []int) []flightFailure {
+// soloCache: the answer of a request served alone, per solo server (a handler of the catalogue is a
+// function of its URL; the same request recurs in many cases of a batch)
+type soloCache struct {
+	srv *server
+	got map[string]resp
+}
+
+func newSoloCache(srv *server) *soloCache { return &soloCache{srv, map[string]resp{}} }
+
+func (s *soloCache) serve(w wire) resp {
+	if r, ok := s.got[w.URL]; ok {
+		return r
+	}
+	r := s.srv.serve(w)
+	s.got[w.URL] = r
+	return r
+}
+
+func judgeFlight(solo *soloCache, reqs []flightReq, out []resp, played []int) []flightFailure {
 	var fails []flightFailure
 	seen := map[string]bool{}
 	for i, r := range reqs {
@@ -280,14 +323,16 @@ func judgeFlight(solo *server, reqs []flightReq, out []resp, played []int) []fli
 
 var parenNum = regexp.MustCompile(`\((\d+)\)`)
 
-// flightOutcome: ok:<levels> | fail:<depth the guard reported> | other
+// flightOutcome: ok | fail:<depth the guard reported> | other
 func flightOutcome(r resp) string {
 	if r.Panic != "" {
+		if m := parenNum.FindStringSubmatch(r.Panic); m != nil {
+			return "fail:" + m[1]
+		}
 		return "panic"
 	}
 	if r.Code == 200 {
-		p := strings.Split(r.Body, "|")
-		return "ok:" + p[len(p)-1]
+		return "ok"
 	}
 	if m := parenNum.FindStringSubmatch(r.Body); m != nil && r.Code == 500 {
 		return "fail:" + m[1]
@@ -330,17 +375,19 @@ func (rn *runner) runFlightBatch(cases []flightCase, stream string) {
 		c.Violation("inflight:script", "the depth-catalogue server script did not run: "+err.Error(), cases[0])
 		return
 	}
-	solo, err := newServer(src)
+	soloSrv, err := newServer(src)
 	if err != nil {
 		c.Violation("inflight:script", "the depth-catalogue server script did not run (solo server): "+err.Error(), cases[0])
 		return
 	}
+	solo := newSoloCache(soloSrv)
 	type played struct {
 		out   []resp
 		turns []int
 	}
 	runs := make([]played, len(cases))
 	var lines []string
+	restReported := false
 	for j, cs := range cases {
 		out, turns, err := playFlight(srv, cs.Reqs, cs.Turns)
 		if err != nil {
@@ -350,6 +397,11 @@ func (rn *runner) runFlightBatch(cases []flightCase, stream string) {
 		}
 		runs[j] = played{out, turns}
 		lines = append(lines, flightModelLine(cs, turns))
+		if rest, ok := srv.counterAtRest(); ok && rest != 0 && !restReported {
+			restReported = true
+			cs.Kind = "flight"
+			c.Mismatch(cs, fmt.Sprintf("the VM's call counter reads %d with no request in flight (case %d of the batch)", rest, j), "0 (Model.ReqLimit: c = Σ d_i, C11_depth_counter_is_sum)", "process-wide counter at rest after the schedule "+intsCSV(turns))
+		}
 	}
 	var mres []string
 	if rn.m != nil {
@@ -367,10 +419,18 @@ func (rn *runner) runFlightBatch(cases []flightCase, stream string) {
 		c.Hit(fmt.Sprintf("inflight-requests=%s", bucket(len(cs.Reqs))))
 		sum := 0
 		for _, r := range cs.Reqs {
+			if r.Hot {
+				c.Hit("inflight-route:HotHandler")
+			} else {
+				c.Hit("inflight-route:Handler")
+			}
 			c.Hit("depth-kind:" + r.K)
 			sum += r.frames()
 		}
 		c.Hit("inflight-frames=" + bucket(sum))
+		for _, o := range run.out {
+			c.Hit("inflight-outcome:" + strings.SplitN(flightOutcome(o), ":", 2)[0])
+		}
 		if sequential(run.turns) {
 			c.Hit("schedule:sequential")
 		} else {
@@ -440,7 +500,7 @@ func replayFlight(cs flightCase) []flightFailure {
 	if err != nil {
 		return []flightFailure{{"schedule:hang", err.Error()}}
 	}
-	return judgeFlight(solo, cs.Reqs, out, played)
+	return judgeFlight(newSoloCache(solo), cs.Reqs, out, played)
 }
 
 func (rn *runner) replayFlightCase(raw json.RawMessage) {
@@ -487,23 +547,51 @@ func parkProbe(name string, parked []flightReq, probe flightReq, rev bool) fligh
 // requests parked 8–10 frames down + a shallow probe of the same kind and of the next kind.
 // deep and the shallow total are chosen from the limits found in the source: every request stays
 // below the smallest limit on its own, the frames in flight together exceed the largest.
-func flightExhaustive(limits []int) []flightCase {
+func flightExhaustive(limits []int, thorough bool) []flightCase {
 	lo, hi := limitRange(limits)
 	deep := lo * 3 / 5 // alone: within the limit; two parked + the probe: 1.8 × the limit
 	var out []flightCase
 	ks := depthKinds()
+	isRep := map[string]bool{}
+	for _, n := range flightReps {
+		isRep[n] = true
+	}
+	pair := func(p, q depthKind, pi, qi int, hotP, hotQ bool) {
+		parked := []flightReq{mkReq(p, deep, flightX(pi)), mkReq(p, deep-2, flightX(pi+20))}
+		// the smallest limit may be far below the largest: park more requests until the sum is beyond it
+		for sum := 2 * deep; sum+deep <= hi+hi/5; sum += deep {
+			parked = append(parked, mkReq(p, deep, flightX(len(parked)+40)))
+		}
+		probe := mkReq(q, deep+2, flightX(qi+60))
+		name := fmt.Sprintf("parked %s, probe %s", p.Name, q.Name)
+		if hotP {
+			for i := range parked {
+				parked[i].Hot = true
+			}
+			name += ", parked through HotHandler"
+		}
+		if hotQ {
+			probe.Hot = true
+			name += ", probe through HotHandler"
+		}
+		out = append(out, parkProbe(name, parked, probe, (pi+qi)%2 == 0))
+	}
 	for pi, p := range ks {
 		for qi, q := range ks {
-			parked := []flightReq{mkReq(p, deep, flightX(pi)), mkReq(p, deep-2, flightX(pi+20))}
-			// the smallest limit may be far below the largest: park more requests until the sum is beyond it
-			for sum := 2 * deep; sum+deep <= hi+hi/5; sum += deep {
-				parked = append(parked, mkReq(p, deep, flightX(len(parked)+40)))
+			// quick: every kind parked and every kind probing, against the representative kinds
+			if !thorough && !isRep[p.Name] && !isRep[q.Name] {
+				continue
 			}
-			out = append(out, parkProbe(fmt.Sprintf("parked %s, probe %s", p.Name, q.Name), parked, mkReq(q, deep+2, flightX(qi+60)), (pi+qi)%2 == 0))
+			pair(p, q, pi, qi, false, false)
+			if isRep[p.Name] && isRep[q.Name] {
+				pair(p, q, pi, qi, true, false)
+				pair(p, q, pi, qi, false, true)
+				pair(p, q, pi, qi, true, true)
+			}
 		}
 	}
 	for pi, p := range ks {
-		for _, q := range []depthKind{p, ks[(pi+1)%len(ks)], ks[(pi+5)%len(ks)]} {
+		for vi, q := range []depthKind{p, ks[(pi+1)%len(ks)], ks[(pi+5)%len(ks)]} {
 			var parked []flightReq
 			n := 64
 			per := hi*5/4/n + 1 // 64 × per ≥ 1.25 × the largest limit
@@ -511,9 +599,101 @@ func flightExhaustive(limits []int) []flightCase {
 				per = 8
 			}
 			for i := 0; i < n; i++ {
-				parked = append(parked, mkReq(p, per+2*(i%3), flightX(i)))
+				r := mkReq(p, per+2*(i%3), flightX(i))
+				r.Hot = vi == 2 && i%2 == 1 // third variant: every other parked request through HotHandler
+				parked = append(parked, r)
 			}
-			out = append(out, parkProbe(fmt.Sprintf("64 shallow %s, probe %s", p.Name, q.Name), parked, mkReq(q, per+2, flightX(99)), pi%2 == 0))
+			probe := mkReq(q, per+2, flightX(99))
+			probe.Hot = vi == 1
+			out = append(out, parkProbe(fmt.Sprintf("64 shallow %s, probe %s", p.Name, q.Name), parked, probe, pi%2 == 0))
+		}
+	}
+	return out
+}
+
+// flightPast: past failures, run first whatever the regenerated limits are. (1) fixed d95d272: the
+// method guard decided on the process-wide counter — one request parked 496 method frames down, a
+// probe 5 method frames deep was refused "(501)"; (2) the same through functions / closures / the
+// mixture (seeded change: the guard copied to FunctionStatement.Call); (3) 64 requests 8–10 frames
+// deep each and a shallow probe.
+func flightPast() []flightCase {
+	var out []flightCase
+	for i, kn := range []string{"method", "fn", "closure", "mix", "static", "ctor"} {
+		k := depthByName[kn]
+		out = append(out, parkProbe("past: parked "+kn+" 496, probe "+kn+" 5",
+			[]flightReq{mkReq(k, 496, flightX(i))}, mkReq(k, 5, flightX(i+60)), false))
+		var parked []flightReq
+		for j := 0; j < 64; j++ {
+			parked = append(parked, mkReq(k, 9+j%3, flightX(j)))
+		}
+		out = append(out, parkProbe("past: 64 shallow "+kn+", probe "+kn, parked, mkReq(k, 9, flightX(99)), true))
+	}
+	return out
+}
+
+// flightFar: far beyond every limit the facts know (a limit the translator does not see — a counter in
+// a package variable, a context field — is still a limit on frames held): eight requests parked just
+// within the smallest known limit each, about 7.7 × the limit together, + a shallow probe, per
+// representative kind; the parked side through Handler and HotHandler alternately.
+func flightFar(limits []int, thorough bool) []flightCase {
+	lo, _ := limitRange(limits)
+	var out []flightCase
+	for i, kn := range flightReps {
+		k := depthByName[kn]
+		var parked []flightReq
+		for j := 0; j < 8; j++ {
+			r := mkReq(k, lo*24/25-j, flightX(j))
+			r.Hot = j%2 == 1
+			parked = append(parked, r)
+		}
+		for qi, qn := range []string{kn, flightReps[(i+1)%len(flightReps)]} {
+			if qi > 0 && !thorough {
+				continue
+			}
+			out = append(out, parkProbe(fmt.Sprintf("far: 8 × %s parked, probe %s", kn, qn), parked, mkReq(depthByName[qn], 5, flightX(60+i)), i%2 == 0))
+		}
+	}
+	return out
+}
+
+// flightReps: one kind per Go function that executes frames (plain function, method, static method,
+// closure, constructor) and the mixture
+var flightReps = []string{"fn", "method", "static", "closure", "ctor", "mix"}
+
+// flightBoundary: every limit L found in the source is approached from both sides, (a) by the SUM:
+// one request parked L+Δ-5 frames down, a probe 5 frames deep, Δ = -2 … +2, over every ordered pair
+// of representative kinds (the frame counts of a kind are exact up to the handler / helper frames,
+// hence a window rather than one value); (b) by ONE request's own depth: a request L+Δ frames deep,
+// Δ = -2 … +2, of every kind, served while a method-kind and a function-kind request are parked 3/5·L
+// frames down each — whatever it answers (served, or refused by a limit on its own depth) it must
+// answer alone.
+func flightBoundary(limits []int) []flightCase {
+	var out []flightCase
+	reps := flightReps
+	seen := map[int]bool{}
+	for _, l := range limits {
+		if l < 20 || l > 4000 || seen[l] {
+			continue
+		}
+		seen[l] = true
+		for pi, pn := range reps {
+			for qi, qn := range reps {
+				for d := -2; d <= 2; d++ {
+					p, q := depthByName[pn], depthByName[qn]
+					out = append(out, parkProbe(fmt.Sprintf("sum %d%+d: parked %s, probe %s", l, d, pn, qn),
+						[]flightReq{mkReq(p, l+d-5, flightX(pi))}, mkReq(q, 5, flightX(qi+60)), false))
+				}
+			}
+		}
+		for ki, k := range depthKinds() {
+			for d := -2; d <= 2; d++ {
+				company := []flightReq{mkReq(depthByName["method"], l*3/5, flightX(1)), mkReq(depthByName["fn"], l*3/5, flightX(2))}
+				probe := mkReq(k, l+d, flightX(ki+70))
+				probe.Hot = (ki+d)%3 == 0
+				company[1].Hot = (ki+d)%4 == 1
+				out = append(out, parkProbe(fmt.Sprintf("own %d%+d: %s next to parked method + fn", l, d, k.Name),
+					company, probe, d%2 == 0))
+			}
 		}
 	}
 	return out
@@ -576,7 +756,9 @@ func flightRandom(r *vh.Rand, limits []int) flightCase {
 		if d < 1 {
 			d = 1
 		}
-		cs.Reqs = append(cs.Reqs, mkReq(k, d, strconv.Itoa(1000+r.Intn(9000))))
+		rq := mkReq(k, d, strconv.Itoa(1000+r.Intn(9000)))
+		rq.Hot = r.Chance(33)
+		cs.Reqs = append(cs.Reqs, rq)
 	}
 	// turns: with probability 1/2 "all park, then finish in random order"; else fully random
 	if r.Bool() {
@@ -636,7 +818,13 @@ func flightStreams(rn *runner, factsLine string) {
 			rn.runFlightBatch(cases[i:j], stream)
 		}
 	}
-	fbatch(flightExhaustive(limits), "inflight", 32)
+	if len(limits) == 0 {
+		limits = []int{500}
+	}
+	fbatch(flightPast(), "inflight", 32)
+	fbatch(flightBoundary(limits), "inflight", 32)
+	fbatch(flightExhaustive(limits, c.Thorough()), "inflight", 32)
+	fbatch(flightFar(limits, c.Thorough()), "inflight", 4)
 	var rnd []flightCase
 	for i := 0; i < c.N(60, 3000); i++ {
 		rnd = append(rnd, flightRandom(c.Rand, limits))
